@@ -162,7 +162,7 @@ func solveAllNA(g *gen, dir string, timeout int, crossCheck bool, only func(*obl
 			to := timeout
 			if o.Kind == "smoke" {
 				b = baseStripped
-				to = 5
+				to = 3
 			}
 			if o.Kind == "canary" {
 				to = 3
